@@ -90,6 +90,24 @@ class ConstGen:
             return n, ["ident", n]
         return self.ext(t, v)
 
+    def render(self, t, tree, subst):
+        """text of a const expression tree; with `subst` external values and constants are replaced by their values"""
+        k = tree[0]
+        if k == "ext":
+            return self.lit(t, self.supplied[tree[1]][tree[2]][1])[0] if subst else f"{tree[1]}::{tree[2]}"
+        if k == "lit":
+            return self.lit(t, tree[1])[0]
+        if k == "ident":
+            if not subst:
+                return tree[1]
+            return self.lit(t, next(vv for (tt, vv), n in self.by_value.items() if n == tree[1] and tt == t))[0]
+        if k in ("add", "sub"):
+            b = self.render(t, tree[2], subst)
+            if tree[2][0] in ("add", "sub"):
+                b = "(" + b + ")"
+            return f"{self.render(t, tree[1], subst)} {'+' if k == 'add' else '-'} {b}"
+        return f"{k}(" + ", ".join(self.render(t, a, subst) for a in tree[1:]) + ")"
+
     def const(self, t, v):
         """declares a constant of type t with value v, returns its name"""
         text, tree = self.expr(t, v, 2)
@@ -127,9 +145,37 @@ def gen_size_case(seed, cid):
     N = cg.const("usize", n)
     elem = tg.ty(rng.choice([0, 0, 1]))
     et = T.ty_str(elem)
-    kind = rng.choice(["parties", "fold", "repeat", "two-sizes"])
+    kind = rng.choice(["parties", "fold", "repeat", "two-sizes", "const-expr-size", "const-expr-size"])
     defs = tg.defs_src()
-    if kind == "parties":
+    one_party = False
+    if kind == "const-expr-size":
+        # `[T; const { EXPR }]`: the size is a const expression that names external values directly, constants and
+        # literals (the checker accepts `PARTY::X` there once some constant is declared as `PARTY::X`)
+        def exts(tree):
+            return [tree] if tree[0] == "ext" else [x for sub in tree[1:] if isinstance(sub, list) for x in exts(sub)]
+        text, tree = cg.expr("usize", n, 2)
+        for k, (_, party, name) in enumerate(exts(tree)):
+            cg.decls.append((f"D{len(cg.decls)}", "usize", f"{party}::{name}", ["ext", party, name]))
+        assert cg.render("usize", tree, False) == text, (text, tree)
+        sz = f"const {{ {text} }}"
+        # substituted program: the same const expression with every name replaced by its value (a single array
+        # parameter written `[T; const { .. }]` is one party, unlike `[T; 4]`, with or without constants)
+        szb = f"const {{ {cg.render('usize', tree, True)} }}"
+        if rng.random() < 0.5:
+            body = "let mut c = 0u16; for e in arr { c = c + 1u16; } (c, arr)"
+            a = f"pub fn main(arr: [{et}; {sz}]) -> (u16, [{et}; {sz}]) {{ {body} }}\n"
+            b = f"pub fn main(arr: [{et}; {szb}]) -> (u16, [{et}; {szb}]) {{ {body} }}\n"
+            params = [["arr", {"k": "array", "elem": elem, "n": n}]]
+            one_party = True
+        else:
+            body = "let b: [{et}; {sz}] = arr; let mut c = 0u8; for e in b {{ c = c + 1u8; }} (b[i], c, arr)"
+            a = f"pub fn main(arr: [{et}; {sz}], i: usize) -> ({et}, u8, [{et}; {sz}]) {{ " + body.format(et=et, sz=sz) + " }\n"
+            b = f"pub fn main(arr: [{et}; {szb}], i: usize) -> ({et}, u8, [{et}; {szb}]) {{ " + body.format(et=et, sz=szb) + " }\n"
+            params = [["arr", {"k": "array", "elem": elem, "n": n}], ["i", {"k": "int", "t": "usize"}]]
+        kind += ":" + tree[0]
+    if kind.startswith("const-expr-size"):
+        pass
+    elif kind == "parties":
         body = "let mut c = 0u16; for e in arr { c = c + 1u16; } (c, arr)"
         a = f"pub fn main(arr: [{et}; {N}]) -> (u16, [{et}; {N}]) {{ {body} }}\n"
         b = f"pub fn main(arr: [{et}; {n}]) -> (u16, [{et}; {n}]) {{ {body} }}\n"
@@ -160,7 +206,7 @@ def gen_size_case(seed, cid):
             vals.append(v)
         args.append(vals)
     return {"id": cid, "seed": seed, "kind": "size:" + kind, "src_a": cg.decl_text() + defs + a, "src_b": defs + b, "params": params,
-            "args": args, "cg": cg}
+            "args": args, "cg": cg, "one_party": one_party}
 
 
 def gen_value_case(seed, cid, wrap_in_minmax=False):
@@ -213,7 +259,7 @@ def run(ctx):
 
     def req(c, src, consts, idx):
         return {"id": c["id"] * 4 + idx, "op": "compile_eval", "src": src, "kind": "ssa", "dedup": True, "consts": consts,
-                "inputs": [gen_prog.party_inputs(c["params"], a) for a in c["args"]]}
+                "inputs": [(["".join(gen_prog.party_inputs(c["params"], a))] if c.get("one_party") else gen_prog.party_inputs(c["params"], a)) for a in c["args"]]}
     reqs = []
     for c in cases:
         reqs.append(req(c, c["src_a"], c["cg"].consts_json(), 0))
@@ -259,6 +305,8 @@ def run(ctx):
             if x.startswith("panic@") or y.startswith("panic@"):
                 return x[:6] == y[:6]
             return x[0] == y[0] and (x[1:33] == y[1:33] if x[0] == "1" else x[161:] == y[161:])
+        if ra["outs"] and all(x.startswith("panic@") for x in ra["outs"]) and c["kind"].startswith("size:"):
+            failures.append(Failure("model", "c12:harness-inputs-do-not-fit", f"every evaluation aborts: {ra['outs'][0][:200]}", sub, None, ra["outs"][0])); continue
         diff = next(((a, x, y) for a, x, y in zip(c["args"], ra["outs"], rb["outs"]) if not same(x, y)), None)
         if diff:
             failures.append(Failure("oracle", "c12:not-equivalent-to-substitution:" + c["kind"], "the circuit compiled with constants and the one compiled from the substituted program give different outputs",
